@@ -358,7 +358,8 @@ def _concurrent(spec):
     warnings.simplefilter('always')
     warned = []
     warnings.showwarning = lambda m, c, f, l, file=None, line=None: warned.append(c.__name__)
-    s = sched.Scheduler(spec['sched'], SHARED, wall_timeout=RUN_TIMEOUT - 20)
+    s = sched.Scheduler(dict(spec['sched'], probe_funcs=[v[0] for v in PROBE_RANGES.values()]),
+                        SHARED, wall_timeout=RUN_TIMEOUT - 20)
     for calls in spec['threads']:
         s.spawn([(lambda i=i: _call(i)) for i in calls])
     s.run()
